@@ -12,6 +12,11 @@
 //!   A2  visibility widened to `pub`
 //!   R1  `X.iter()…any/all/count/collect/find/position/for_each` iterator chains -> explicit loops
 //!   R4  `for (i, x) in X.iter().enumerate()` -> counted `for` with an index variable
+//!   R5  `A.extend(b)` (b a Vec variable) -> `A.append(&mut b')`
+//!   R7  lock elision: Arc<RwLock<T>> -> T, `.write().unwrap()` -> `&mut`, `.read().unwrap()` -> `&`
+//!   R8  `format!(..)` -> `vx_opaque_string()` (an arbitrary String)
+//!   R12 `X.retain(|e| P)` -> explicit filter loop (Vec: swap + by-value for; VecDeque: rotate once)
+//!   R13 `for x in &mut V` -> counted while loop over `&mut V[i]`
 //!   R11 reference patterns in `for` / closure parameters / `Some(&x)` -> bind + deref
 //!   RS  pinned statement replacement   (request: replace_stmt)
 //!   RE  pinned expression replacement  (request: replace_expr)
@@ -52,6 +57,9 @@ struct Replace {
     with: String,
     #[serde(default)]
     all: bool,
+    /// alternatives: exactly one member of a group must match
+    #[serde(default)]
+    group: Option<u32>,
 }
 
 #[derive(Deserialize, Clone)]
@@ -72,6 +80,9 @@ struct ItemReq {
     /// "vec" | "deque": receiver kind assumed by the retain lowering (rustc rejects a wrong choice)
     #[serde(default)]
     retain: Option<String>,
+    /// force `&self` -> `&mut self` (callers of lock-elided writers)
+    #[serde(default)]
+    mutself: bool,
 }
 
 #[derive(Serialize, Default)]
@@ -171,6 +182,8 @@ fn attrs_enabled(attrs: &[Attribute], feats: &[String]) -> std::result::Result<b
 // the rewriting visitor
 // ---------------------------------------------------------------------------------------------
 struct Rw<'a> {
+    wrote_lock: bool,
+    refpat: u32,
     retain: String,
     feats: &'a [String],
     counts: BTreeMap<String, u32>,
@@ -506,6 +519,84 @@ impl<'a> VisitMut for Rw<'a> {
         }
         // children first (inner chains inside closures get lowered first)
         visit_mut::visit_expr_mut(self, e);
+        if self.enabled("R8") {
+            // format!(..) -> an opaque String (the text of messages is outside every contract)
+            if let Expr::Macro(m) = e {
+                if m.mac.path.is_ident("format") {
+                    *e = parse_quote!(vx_opaque_string());
+                    self.bump("R8.format");
+                    return;
+                }
+            }
+        }
+        if self.enabled("R7") {
+            // X.write().unwrap() -> (&mut X) ; X.read().unwrap() -> (&X) ; X.lock().unwrap() -> (&mut X)
+            let mut repl: Option<Expr> = None;
+            if let Expr::MethodCall(mc) = e {
+                if mc.method == "unwrap" && mc.args.is_empty() {
+                    if let Expr::MethodCall(inner) = &*mc.receiver {
+                        if inner.args.is_empty() {
+                            let recv = &inner.receiver;
+                            if inner.method == "write" || inner.method == "lock" {
+                                repl = Some(parse_quote!((&mut #recv)));
+                                self.wrote_lock = true;
+                            } else if inner.method == "read" {
+                                repl = Some(parse_quote!((&#recv)));
+                            }
+                        }
+                    }
+                }
+            }
+            // Arc::new(RwLock::new(X)) -> X
+            if let Expr::Call(c) = e {
+                if tnorm(&c.func) == "Arc::new" && c.args.len() == 1 {
+                    if let Expr::Call(c2) = &c.args[0] {
+                        let f2 = tnorm(&c2.func);
+                        if (f2 == "RwLock::new" || f2 == "Mutex::new") && c2.args.len() == 1 {
+                            let x = &c2.args[0];
+                            repl = Some(parse_quote!(#x));
+                        }
+                    }
+                }
+            }
+            if let Some(r) = repl {
+                *e = r;
+                self.bump("R7.lock");
+                return;
+            }
+        }
+        if self.enabled("R11") {
+            // `if let PAT(&x) = E { .. }`  ->  `if let PAT(__p) = E { let x = *__p; .. }`
+            if let Expr::If(ifx) = e {
+                if let Expr::Let(l) = &mut *ifx.cond {
+                    let mut rp = RefPats { out: vec![], next: self.refpat };
+                    rp.visit_pat_mut(&mut l.pat);
+                    self.refpat = rp.next;
+                    if !rp.out.is_empty() {
+                        let mut pre: Vec<Stmt> = Vec::new();
+                        for (p, id) in &rp.out {
+                            pre.push(parse_quote!(let #p = *#id;));
+                        }
+                        pre.extend(std::mem::take(&mut ifx.then_branch.stmts));
+                        ifx.then_branch.stmts = pre;
+                        self.bump("R11.refpat");
+                    }
+                }
+            }
+            if let Expr::Match(m) = e {
+                for arm in m.arms.iter_mut() {
+                    let mut rp = RefPats { out: vec![], next: self.refpat };
+                    rp.visit_pat_mut(&mut arm.pat);
+                    self.refpat = rp.next;
+                    if !rp.out.is_empty() {
+                        let lets: Vec<Stmt> = rp.out.iter().map(|(p, id)| -> Stmt { parse_quote!(let #p = *#id;) }).collect();
+                        let b = &arm.body;
+                        arm.body = Box::new(parse_quote!({ #(#lets)* #b }));
+                        self.bump("R11.refpat");
+                    }
+                }
+            }
+        }
         if self.enabled("R12") {
             if let Expr::MethodCall(mc) = e {
                 if mc.method == "retain" && mc.args.len() == 1 {
@@ -626,6 +717,78 @@ fn expr_attrs(e: &Expr) -> &[Attribute] {
         Expr::Macro(x) => &x.attrs,
         Expr::Return(x) => &x.attrs,
         _ => &[],
+    }
+}
+
+
+// ---------------------------------------------------------------------------------------------
+// R7: lock elision (a lock is modelled as exclusive access; see DESIGN §2.2)
+// ---------------------------------------------------------------------------------------------
+fn last_seg(t: &Type) -> Option<&PathSegment> {
+    if let Type::Path(p) = t {
+        p.path.segments.last()
+    } else {
+        None
+    }
+}
+fn single_generic(seg: &PathSegment) -> Option<Type> {
+    if let PathArguments::AngleBracketed(a) = &seg.arguments {
+        if a.args.len() == 1 {
+            if let GenericArgument::Type(t) = &a.args[0] {
+                return Some(t.clone());
+            }
+        }
+    }
+    None
+}
+/// Arc<RwLock<T>> | Arc<Mutex<T>> | RwLock<T> | Mutex<T>  ->  T
+fn elide_lock_type(t: &Type) -> Option<Type> {
+    let seg = last_seg(t)?;
+    if seg.ident == "Arc" {
+        let inner = single_generic(seg)?;
+        let s2 = last_seg(&inner)?;
+        if s2.ident == "RwLock" || s2.ident == "Mutex" {
+            return single_generic(s2);
+        }
+        return None;
+    }
+    if seg.ident == "RwLock" || seg.ident == "Mutex" {
+        return single_generic(seg);
+    }
+    None
+}
+struct LockTypes {
+    n: u32,
+}
+impl VisitMut for LockTypes {
+    fn visit_type_mut(&mut self, t: &mut Type) {
+        if let Some(inner) = elide_lock_type(t) {
+            *t = inner;
+            self.n += 1;
+        }
+        visit_mut::visit_type_mut(self, t);
+    }
+}
+
+/// R11: replace `&ident` sub-patterns by fresh identifiers; returns the (name, fresh) pairs to deref
+struct RefPats {
+    out: Vec<(Pat, Ident)>,
+    next: u32,
+}
+impl VisitMut for RefPats {
+    fn visit_pat_mut(&mut self, p: &mut Pat) {
+        if let Pat::Reference(r) = p {
+            if r.mutability.is_none() {
+                if let Pat::Ident(_) = &*r.pat {
+                    self.next += 1;
+                    let id = Ident::new(&format!("__vx_p{}", self.next), Span::call_site());
+                    self.out.push(((*r.pat).clone(), id.clone()));
+                    *p = parse_quote!(#id);
+                    return;
+                }
+            }
+        }
+        visit_mut::visit_pat_mut(self, p);
     }
 }
 
@@ -920,7 +1083,13 @@ fn do_type(items: &[Item], name: &str, feats: &[String]) -> std::result::Result<
                 s2.attrs.clear();
                 s2.vis = parse_quote!(pub);
                 widen_fields(&mut s2.fields, feats)?;
-                return Ok(ItemResp { ok: true, kind: "type".into(), path: name.into(), text: s2.to_token_stream().to_string(), derives, orig_norm: tnorm(s), ..Default::default() });
+                let mut lt = LockTypes { n: 0 };
+                lt.visit_fields_mut(&mut s2.fields);
+                let mut rewrites = BTreeMap::new();
+                if lt.n > 0 {
+                    rewrites.insert("R7.lock_type".to_string(), lt.n);
+                }
+                return Ok(ItemResp { rewrites, ok: true, kind: "type".into(), path: name.into(), text: s2.to_token_stream().to_string(), derives, orig_norm: tnorm(s), ..Default::default() });
             }
             Item::Enum(e) if e.ident == name && attrs_enabled(&e.attrs, feats)? => {
                 let mut e2 = e.clone();
@@ -989,7 +1158,21 @@ fn do_fn(items: &[Item], req: &ItemReq, feats: &[String]) -> std::result::Result
     if let Some(e) = rp.err {
         return Err(e);
     }
+    let mut group_hits: BTreeMap<u32, u32> = BTreeMap::new();
     for (r, n) in rp.stmt.iter().chain(rp.expr.iter()) {
+        if let Some(g) = r.group {
+            *group_hits.entry(g).or_insert(0) += *n;
+        }
+    }
+    for (g, n) in &group_hits {
+        if *n != 1 {
+            return Err(format!("pinned text (alternatives group {g}) matched {n} times (source changed?)"));
+        }
+    }
+    for (r, n) in rp.stmt.iter().chain(rp.expr.iter()) {
+        if r.group.is_some() {
+            continue;
+        }
         if *n == 0 {
             return Err(format!("pinned text not found (source changed?): `{}`", r.text));
         }
@@ -1004,7 +1187,7 @@ fn do_fn(items: &[Item], req: &ItemReq, feats: &[String]) -> std::result::Result
         counts.insert("RE.replace_expr".into(), rp.expr.iter().map(|x| x.1).sum());
     }
 
-    let mut rw = Rw { retain: req.retain.clone().unwrap_or_else(|| "vec".into()), feats, counts, err: None, fresh: 0, no: req.no_rewrite.clone() };
+    let mut rw = Rw { wrote_lock: false, refpat: 0, retain: req.retain.clone().unwrap_or_else(|| "vec".into()), feats, counts, err: None, fresh: 0, no: req.no_rewrite.clone() };
     // signature: strip attrs on params
     for a in sig.inputs.iter_mut() {
         match a {
@@ -1037,6 +1220,17 @@ fn do_fn(items: &[Item], req: &ItemReq, feats: &[String]) -> std::result::Result
     }
     block.stmts.insert(0, mac_stmt("__vx_body", None));
 
+    if rw.wrote_lock || req.mutself {
+        if let Some(FnArg::Receiver(r)) = sig.inputs.first_mut() {
+            if r.reference.is_some() && r.mutability.is_none() {
+                let nr: FnArg = parse_quote!(&mut self);
+                if let FnArg::Receiver(nr) = nr {
+                    *r = nr;
+                    *rw.counts.entry("R7.mut_self".to_string()).or_insert(0) += 1;
+                }
+            }
+        }
+    }
     let ret_ty = match &sig.output {
         ReturnType::Default => None,
         ReturnType::Type(_, t) => Some(t.to_token_stream().to_string()),
